@@ -169,6 +169,88 @@ def assembled(chk, repo, rule_surface, rule_iface, rule_love, rule_intact=None, 
     return n_run
 
 
+def alone_vs_together(chk, repo, rule, where='TidalPy/RadialSolver/solver.pyx'):
+    """A solution type requested alone and the same type requested together with the others: the returned rows of that type and its (k, h, l) are the same expressions of the
+    same integrated solutions (whole-driver symbolic execution, dimensional and non-dimensionalised).  Nothing a first type leaves behind (a factorised matrix, a pivot
+    vector, a scaled boundary vector) may reach the second."""
+    d = X.Decider(seed=chk.seed + 83, k=2)
+    types = ('tidal', 'loading', 'free')
+    seqs = [('solid', 'solid'), ('solid', 'liquid', 'solid'), ('liquid-static', 'solid'), ('solid', 'liquid')] if chk.tier == 'quick' else layer_sequences(chk.tier)
+    n_run = 0
+    for kinds in seqs:
+        for nondim in ((False, True) if len(kinds) <= 3 else (False,)):
+            lab = ' / '.join(kinds) + ' (innermost first)' + (', solved non-dimensionalised' if nondim else '')
+            try:
+                joint = SR.run_solver(repo, kinds, types, nondim)
+                orders = {'together, listed last': SR.run_solver(repo, kinds, tuple(reversed(types)), nondim)}
+                alone = {tn: SR.run_solver(repo, kinds, (tn,), nondim) for tn in types}
+            except AnalysisError as ex:
+                raise AnalysisError(f'whole-solver interpretation (alone / together), layers {lab}: {ex}')
+            n_run += 5
+            bad = []
+            if any(r_.raised is not None or r_.solution_obj is None or r_.solution_obj.attrs.get('success') is not True for r_ in [joint] + list(alone.values()) + list(orders.values())):
+                bad.append('a run does not complete successfully')
+            else:
+                nt = len(types)
+                rev = orders['together, listed last']
+                for t, tn in enumerate(types):
+                    a = alone[tn]
+                    for how, other, to, nto in (('together with the others', joint, t, nt), ('together with the others, requested in reverse order', rev, nt - 1 - t, nt)):
+                        la = a.solution_obj.attrs['complex_love_ptr']; lo = other.solution_obj.attrs['complex_love_ptr']
+                        for k_, nm in enumerate(('k', 'h', 'l')):
+                            ga, go = la.store.get(k_), lo.store.get(3 * to + k_)
+                            if isinstance(ga, X.Node) != isinstance(go, X.Node) or (isinstance(ga, X.Node) and not d.equal(ga, go)):
+                                bad.append(f'{tn}: {nm} requested alone differs from {nm} requested {how}')
+                        for sl in range(a.total):
+                            ya = row(a, sl, 0, 1); yo = row(other, sl, to, nto)
+                            for nm in NAMES:
+                                if (ya[nm] is None) != (yo[nm] is None) or (ya[nm] is not None and not d.equal(ya[nm], yo[nm])):
+                                    bad.append(f'{tn}: {nm} at slice {sl} requested alone differs from the value requested {how}'); break
+                            else:
+                                continue
+                            break
+            chk.ob(rule, f'layers {lab}: every solution type (tidal, loading, free) requested alone returns the rows and the (k, h, l) it returns when requested together with the others, in either order',
+                   not bad, '; '.join(bad[:3]), where, key=f'{rule}|alone-together|{lab}', method='whole-function symbolic execution of cf_radial_solver (5 runs) + GF(p^2) PIT')
+    chk.note_analysed('whole-solver symbolic executions (alone / together)', n_run)
+    return n_run
+
+
+def liquid_y3(chk, repo, rule, where='TidalPy/RadialSolver/solver.pyx'):
+    """The tangential displacement of a dynamic liquid layer is not integrated: it is reconstructed from the other components with the forcing frequency.  The returned
+    (re-dimensionalised) solution must satisfy y3 = (rho g y1 - y2 - rho y5) / (w^2 rho r) with the caller's frequency, density, gravity and radius whether or not the
+    solve was non-dimensionalised internally."""
+    d = X.Decider(seed=chk.seed + 85, k=2)
+    types = ('tidal', 'loading')
+    n = 0
+    for kinds in (('solid', 'liquid'), ('solid', 'liquid', 'solid'), ('liquid', 'solid')):
+        for nondim in (False, True):
+            lab = ' / '.join(kinds) + ' (innermost first)' + (', solved non-dimensionalised' if nondim else '')
+            try:
+                r = SR.run_solver(repo, kinds, types, nondim)
+            except AnalysisError as ex:
+                raise AnalysisError(f'whole-solver interpretation (liquid y3), layers {lab}: {ex}')
+            so = r.solution_obj
+            bad = []
+            if r.raised is not None or so is None or so.attrs.get('success') is not True:
+                bad.append('the run does not complete successfully')
+            else:
+                dens = r.inputs['density']; grav = r.inputs['gravity']; w = r.sym['w']
+                for li, kd in enumerate(kinds):
+                    if kd != 'liquid': continue
+                    for sl in range(li * r.ns, (li + 1) * r.ns):
+                        for t, tn in enumerate(types):
+                            yv = row(r, sl, t, len(types))
+                            if any(yv[nm] is None for nm in ('y1', 'y2', 'y3', 'y5')):
+                                bad.append(f'layer {li}, slice {sl}, {tn}: a component is not defined'); continue
+                            want = (dens[sl] * grav[sl] * yv['y1'] - yv['y2'] - dens[sl] * yv['y5']) / (w * w * dens[sl] * r.inputs['radius'][sl])
+                            if not d.equal(yv['y3'], want):
+                                bad.append(f'layer {li}, slice {sl}, {tn}: returned y3 is not (rho g y1 - y2 - rho y5)/(w^2 rho r) of the returned y1, y2, y5 with the caller\'s frequency')
+                            n += 1
+            chk.ob(rule, f'layers {lab}: y3 of the dynamic liquid layer in the returned solution obeys the elimination formula with the caller\'s (dimensional) frequency, density, gravity and radius',
+                   not bad, '; '.join(bad[:3]), where, key=f'{rule}|liquid-y3|{lab}', method='whole-function symbolic execution of cf_radial_solver + GF(p^2) PIT')
+    return n
+
+
 def inputs_intact(chk, repo, rule, where='TidalPy/RadialSolver/solver.pyx'):
     """nondimensionalize=True: after the call (normal return, integration failure reported through success=False, integration failure raised) the caller's five arrays hold
     their original values"""
